@@ -73,16 +73,20 @@ pub proof fn lemma_sel_step(ms: Seq<DltMessage>, k: int, lcs: Set<u32>, first: u
     assert(ms.take(k + 1).last() == ms[k]);
     if k > 0 { lemma_sel_step(ms, k - 1, lcs, first, last); } else { assert(ms.take(0).len() == 0); }
 }
-//@ extract src/bin/adlt/convert.rs region `for msg in t4_input {` .. `for msg in t4_input {` in fn convert
-//@   sig #[verifier::loop_isolation(false)] #[verifier::allow_complex_invariants] pub fn convert_output<I: VRecv, W: VWrite, F: VWrite>(mut t4_input: I, filter_lc_ids: &VxLcSet, index_first: u32, index_last: u32, output_style: OutputStyle, debug_verify_sort: bool, sort_by_time: bool, debug_verify_lcs: bool, mut writer_screen: W, mut output_file: Result<F, VxErr>, mut writer_screen_flush_pending: bool, mut output: u32) -> (r: Result<(u32, Result<F, VxErr>), VxErr>)
+//@ extract src/bin/adlt/convert.rs region `let mut output :` .. `for msg in t4_input { ||| while let Ok(msg) = t4_input.recv() {` in fn convert
+//@   sig #[verifier::loop_isolation(false)] #[verifier::allow_complex_invariants] pub fn convert_output<I: VRecv, W: VWrite, F: VWrite>(mut t4_input: I, filter_lc_ids: &VxLcSet, index_first: u32, index_last: u32, output_style: OutputStyle, debug_verify_sort: bool, sort_by_time: bool, debug_verify_lcs: bool, mut writer_screen: W, mut output_file: Result<F, VxErr>, mut vx_unused: bool) -> (r: Result<(u32, Result<F, VxErr>), VxErr>)
 //@   tail `Ok((output, output_file))`
-//@   sub R13 `for msg in t4_input {` => `loop { let msg = match t4_input.recv() { Ok(vx_m) => vx_m, Err(_) => break };`
+//@   sub R13 `for msg in t4_input {` => `loop { let msg = match t4_input.recv() { Ok(vx_m) => vx_m, Err(_) => break }; let ghost sk = ser_selected(ms0.take(k), lcs, index_first, index_last); proof { assert(msg == ms0[k]); assert(ms0.skip(k).skip(1) =~= ms0.skip(k + 1)); lemma_sel_step(ms0, k, lcs, index_first, index_last); k = k + 1; } let ghost fb = if output_file is Ok { output_file->Ok_0.bytes() } else { Seq::<u8>::empty() }; proof { assert(fb + Seq::<u8>::empty() =~= fb); assert((f0 + sk) + ser_of(msg) =~= f0 + (sk + ser_of(msg))); assert(sk + Seq::<u8>::empty() =~= sk); }` ?
+//@   sub R13 `while let Ok(msg) = t4_input.recv() {` => `loop { let msg = match t4_input.recv() { Ok(vx_m) => vx_m, Err(_) => break }; let ghost sk = ser_selected(ms0.take(k), lcs, index_first, index_last); proof { assert(msg == ms0[k]); assert(ms0.skip(k).skip(1) =~= ms0.skip(k + 1)); lemma_sel_step(ms0, k, lcs, index_first, index_last); k = k + 1; } let ghost fb = if output_file is Ok { output_file->Ok_0.bytes() } else { Seq::<u8>::empty() }; proof { assert(fb + Seq::<u8>::empty() =~= fb); assert((f0 + sk) + ser_of(msg) =~= f0 + (sk + ser_of(msg))); assert(sk + Seq::<u8>::empty() =~= sk); }` ?
+//@   sub R2 `adlt::dlt::DltMessageIndexType` => `u32` ?
+//@   cut R11 `let mut last_timestamp_by_lc_map` ?
+//@   cut R11 `let mut last_lc_timestamp_by_ecu_apid_ctid_map` ?
 //@   sub R11 `if debug_verify_sort { __ }` => ``
 //@   sub R11 `if debug_verify_lcs { __ }` => ``
 //@   sub R11 `writeln!(writer_screen, " [{}]", msg.payload_as_text()?)?;` => `vx_write_payload_text(&mut writer_screen, &msg)?;`
 //@   spec
 //@|    requires
-//@|        output == 0, t4_input.rem().len() < u32::MAX,
+//@|        t4_input.rem().len() < u32::MAX,
 //@|    ensures
 //@|        r is Ok && output_file is Ok ==> r->Ok_0.1 is Ok
 //@|            && r->Ok_0.1->Ok_0.bytes() == output_file->Ok_0.bytes() + ser_selected(t4_input.rem(), filter_lc_ids.ids(), index_first, index_last) // O:convert.file (the output file receives exactly the selected messages, each once, in the order received)
@@ -103,15 +107,6 @@ pub proof fn lemma_sel_step(ms: Seq<DltMessage>, k: int, lcs: Set<u32>, first: u
 //@|    ensures
 //@|        k == ms0.len(),
 //@|    decreases ms0.len() - k,
-//@   hint before `if writer_screen_flush_pending && (msg.index & 0x7ffff == 0) {`
-//@|    proof {
-//@|        assert(msg == ms0[k]);
-//@|        assert(ms0.skip(k).skip(1) =~= ms0.skip(k + 1));
-//@|        lemma_sel_step(ms0, k, lcs, index_first, index_last);
-//@|        k = k + 1;
-//@|    }
-//@|    let ghost fb = if output_file is Ok { output_file->Ok_0.bytes() } else { Seq::<u8>::empty() };
-//@|    proof { assert(fb + Seq::<u8>::empty() =~= fb); assert(forall|a: Seq<u8>, b: Seq<u8>, c: Seq<u8>| (a + b) + c =~= a + (b + c)); }
 //@   hint before `^Ok((output, output_file))`
 //@|    proof { assert(ms0.take(k) =~= ms0); }
 //@ end
